@@ -9,5 +9,8 @@ CONSTANTS
   WriterFollowsOwnSCS = TRUE
   HsOrder = "free"
   HsReadExact = FALSE
+  ScsSids = {0}
+  ReaderScsAnySid = TRUE
+  LazyFlushTypes = {}
 INVARIANTS HsExact
 CHECK_DEADLOCK FALSE
